@@ -161,3 +161,13 @@ Example ex_ssl2_hello_strict :
   decode fmt_ClientHelloSSL2 ([1;3;1; 0;3; 0;0; 0;3] ++ [0;0;47] ++ [7;7]) = Err DecodeError /\
   decode fmt_ClientHelloSSL2 ([1;3;1; 0;6; 0;0; 0;2] ++ [0;0;47] ++ [7;7]) = Err DecodeError.
 Proof. repeat split; vm_compute; reflexivity. Qed.
+
+(* a repeated extension type is outside the domain of the hello / EncryptedExtensions /
+   CertificateRequest extension blocks: refused by the decoder and by the encoder alike *)
+Example ex_duplicate_extension :
+  decode fmt_EncryptedExtensions [8;0;0;12; 0;10; 0;21;0;1;7; 0;21;0;1;9] = Err DecodeError /\
+  encode fmt_EncryptedExtensions
+    (VPair (VInt 8) (vlist [VTag 21 (VBytes [7]); VTag 21 (VBytes [9])])) = Err ValueError /\
+  decode fmt_EncryptedExtensions [8;0;0;12; 0;10; 0;21;0;1;7; 0;22;0;1;9]
+    = Ok (VPair (VInt 8) (vlist [VTag 21 (VBytes [7]); VTag 22 (VBytes [9])]), []).
+Proof. repeat split; vm_compute; reflexivity. Qed.
